@@ -120,10 +120,19 @@ def instantiate(toks, P, seed, template, effects=False):
     pos = [0]
     names = ["a", "b", "c", "d"]
 
+    chain_mode = "Sacc" in toks
+    pre_stmts = []
+
     def lst(ind):
         kids = []
         while toks[pos[0]] != "}":
-            kids.append(one(ind))
+            mark = len(pre_stmts)
+            k1 = one(ind)
+            # statements a construct emits in front of itself (the counter of a chain-mode loop) belong to this list
+            mine = pre_stmts[mark:]
+            del pre_stmts[mark:]
+            kids.extend(mine)
+            kids.append(k1)
         pos[0] += 1
         return kids
 
@@ -194,6 +203,37 @@ def instantiate(toks, P, seed, template, effects=False):
             pre = "%s[%s] = " % (a, it)
             lines.append((ind, pre + et + ";", rg, si, len(pre)))
             return si
+        if t in ("Sacc", "Gacc", "Qacc", "Racc"):
+            # SemChains.tla: the accumulator is the first local; it is updated from itself and used after the nesting chain
+            v = pg.locals_[0]
+            vi = pg.node({"k": "var", "x": v})
+            if t == "Sacc":
+                pg.pending_ranges = []
+                ai, at = pg.atom(False)
+                arg = list(pg.pending_ranges) + [(ai, 0, len(at))]
+                off = len(v) + 3
+                top = pg.node({"k": "bin", "op": "add", "l": vi, "r": ai})
+                text = "%s + %s" % (v, at)
+                rg = [(vi, 0, len(v))] + [(j, a + off, b + off) for (j, a, b) in arg] + [(top, 0, len(text))]
+                si = pg.stmt({"k": "set", "x": v, "e": top})
+                lines.append((ind, "%s = %s;" % (v, text), rg, si, len("%s = " % v)))
+                return si
+            if t == "Racc":
+                pg.has_ret = True
+                si = pg.stmt({"k": "ret", "e": vi})
+                lines.append((ind, "return %s;" % v, [(vi, 0, len(v))], si, len("return ")))
+                return si
+            pg.nsig += 1
+            sname = "o%d" % pg.nsig
+            pg.signals.append((sname, False))
+            gi = pg.node({"k": "sig", "v": 1, "x": "in1"})
+            top = pg.node({"k": "bin", "op": "mul", "l": gi, "r": vi})
+            text = "in1 * %s" % v
+            rg = [(gi, 0, 3), (vi, 6, 6 + len(v)), (top, 0, len(text))]
+            op = "<--" if t == "Gacc" else "<=="
+            si = pg.stmt({"k": "nop", "x": sname, "e": top, "fx": "sigset", "exported": True, "constrains": t == "Qacc"})
+            lines.append((ind, "%s %s %s;" % (sname, op, text), rg, si, len("%s %s " % (sname, op))))
+            return si
         if t in ("G", "Q"):
             pg.nsig += 1
             inter = effects and pg.nsig % 2 == 0
@@ -217,13 +257,44 @@ def instantiate(toks, P, seed, template, effects=False):
             lines.append((ind, "assert(%s);" % et, rg, si, len("assert(")))
             return si
         if t in ("if", "ife", "wh"):
-            ei, et, rg = pg.expr(rnd.choice([1, 1, 2]), False, cond=True)
+            counter = None
+            if chain_mode:
+                # SemChains.tla: conditions do not read the accumulator; loops run on a counter of their own (two iterations)
+                if t == "wh":
+                    pg.ncounter = getattr(pg, "ncounter", 0) + 1
+                    counter = "i%d" % pg.ncounter
+                    zi = pg.node({"k": "num", "v": 0})
+                    di = pg.stmt({"k": "set", "x": counter, "e": zi})
+                    lines.append((ind, "var %s = 0;" % counter, [(zi, 0, 1)], di, len("var %s = " % counter)))
+                    pre_stmts.append(di)
+                    ci, li = pg.node({"k": "var", "x": counter}), pg.node({"k": "num", "v": 2})
+                    ei = pg.node({"k": "bin", "op": "lesser", "l": ci, "r": li})
+                    et = "%s < 2" % counter
+                    rg = [(ci, 0, len(counter)), (li, len(counter) + 3, len(counter) + 4), (ei, 0, len(et))]
+                else:
+                    pn = rnd.choice(["n", "m"])
+                    lv = rnd.choice([0, 1, 2])
+                    op = rnd.choice(["greater", "eq", "not_eq", "lesser"])
+                    ci, li = pg.node({"k": "var", "x": pn}), pg.node({"k": "num", "v": lv})
+                    ei = pg.node({"k": "bin", "op": op, "l": ci, "r": li})
+                    et = "%s %s %d" % (pn, BINOPS[op], lv)
+                    rg = [(ci, 0, 1), (li, len(et) - 1, len(et)), (ei, 0, len(et))]
+            else:
+                ei, et, rg = pg.expr(rnd.choice([1, 1, 2]), False, cond=True)
             si = pg.stmt({"k": "wh" if t == "wh" else "if", "e": ei})
             kw = "while" if t == "wh" else "if"
             lines.append((ind, "%s (%s) {" % (kw, et), rg, si, len(kw) + 2))
             saved = list(pg.locals_)
             saved_arr = list(pg.arrays)
             kids = lst(ind + 1)
+            if counter:
+                c2, o2 = pg.node({"k": "var", "x": counter}), pg.node({"k": "num", "v": 1})
+                inc = pg.node({"k": "bin", "op": "add", "l": c2, "r": o2})
+                txt = "%s + 1" % counter
+                ii = pg.stmt({"k": "set", "x": counter, "e": inc})
+                lines.append((ind + 1, "%s = %s;" % (counter, txt), [(c2, 0, len(counter)), (o2, len(txt) - 1, len(txt)), (inc, 0, len(txt))], ii,
+                              len("%s = " % counter)))
+                kids.append(ii)
             pg.arrays[:] = saved_arr
             pg.locals_[:] = saved        # names declared in the block go out of scope (a later declaration re-initialises them)
             body = pg.stmt({"k": "blk", "kids": kids})
@@ -239,7 +310,7 @@ def instantiate(toks, P, seed, template, effects=False):
             return si
         raise ValueError(t)
     kids = lst(1)
-    if not template:
+    if not template and not getattr(pg, "has_ret", False):
         ei, et, rg = pg.expr(1, False)
         si = pg.stmt({"k": "ret", "e": ei})
         lines.append((1, "return %s;" % et, rg, si, len("return ")))
@@ -860,10 +931,23 @@ def run_effects(tier):
         gstates += g.distinct
         ggen += g.generated
         skels += [(x["toks"], template) for x in read_ndjson(g.cases_path)]
+    # nesting chains (SemChains.tla): an accumulator updated under every nesting of if / if-else arms / while up to the depth bound
+    chains = []
+    for template in (False, True):
+        c = os.path.join(wd, "chains.cfg")
+        open(c, "w").write("SPECIFICATION Spec\nCONSTANTS\n  Depth = %d\n  Template = %s\nINVARIANT Emit\nCHECK_DEADLOCK FALSE\n" %
+                           (2 if tier == "quick" else 3, "TRUE" if template else "FALSE"))
+        g = run_tlc("SemChains", c, name, workers=2, cases_suffix="-ch%s" % template, timeout=600)
+        gstates += g.distinct
+        ggen += g.generated
+        chains += [(x["toks"], template) for x in read_ndjson(g.cases_path)]
     progs = []
     for k, (toks, template) in enumerate(skels):
         for j in range(inst):
             progs.append(instantiate(toks, P, seed * 1000003 + k * 31 + j, template, effects=True))
+    for k, (toks, template) in enumerate(chains):
+        for j in range(inst + 1):
+            progs.append(instantiate(toks, P, seed * 7919 + k * 13 + j, template, effects=True))
     pin, pout = os.path.join(wd, "ir.in"), os.path.join(wd, "ir.out")
     write_ndjson(pin, [{"id": i, "src": t, "prime": str(P), "passes": True} for i, (t, _, _, _) in enumerate(progs)])
     vh(["irdump", pin, pout], timeout=3000)
@@ -889,7 +973,7 @@ def run_effects(tier):
         v.violation("c09:%s:%s" % (m["site"]["code"], why), m)
     cov = {"states": states + gstates, "transitions": gen + ggen, "traces_validated_against_impl": len(recs), "exhaustive": False,
            "evaluations": len(progs), "distinct_nontrivial": len(recs),
-           "rule": "every statement skeleton SemGen.tla derives in <= %d steps (functions and templates, %d skeletons), %d seeded instances each "
+           "rule": "every nesting chain of SemChains.tla (accumulator updated under if / else / while nests, used afterwards); every statement skeleton SemGen.tla derives in <= %d steps (functions and templates, %d skeletons), %d seeded instances each "
                    "(locals, parameters, input / output / intermediate signals, constraints, assertions, loops, branches), analysed by the real "
                    "code; %d flagged sites (CS0006/CS0007/CS0008) mapped onto abstract assignment statements or parameters (%d findings could "
                    "not be mapped and are not judged); for every flagged site TLC runs the definition twice in lock step over F_3 for every "
